@@ -74,15 +74,22 @@ def write_labels(tmpdir, frames, skeleton, name="labels", embed=True, predicted=
 
     d = os.path.join(tmpdir, name + "_frames")
     os.makedirs(d, exist_ok=True)
-    paths = []
+    # frames may name a video ("video": k): every video gets its own PNG sequence; frame_idx defaults to the
+    # position of the frame inside its video
+    vids = sorted({fr.get("video", 0) for fr in frames})
+    paths = {v: [] for v in vids}
+    pos = {}
     for i, fr in enumerate(frames):
-        p = os.path.join(d, f"{i:04d}.png")
+        v = fr.get("video", 0)
+        p = os.path.join(d, f"{i:04d}.png" if len(vids) == 1 else f"v{v}_{len(paths[v]):04d}.png")
         im = fr["image"]
         iio.imwrite(p, im[..., 0] if im.shape[-1] == 1 else im)
-        paths.append(p)
-    video = sio.load_video(paths)
+        pos[i] = len(paths[v])
+        paths[v].append(p)
+    videos = {v: sio.load_video(paths[v]) for v in vids}
     lfs = []
     for i, fr in enumerate(frames):
+        video = videos[fr.get("video", 0)]
         insts = [sio.Instance.from_numpy(np.asarray(p, dtype=np.float64), skeleton=skeleton) for p in fr["instances"]]
         if predicted is not None:
             for pts, score in predicted[i]:
@@ -91,8 +98,8 @@ def write_labels(tmpdir, frames, skeleton, name="labels", embed=True, predicted=
                         points_data=np.asarray(pts, dtype=np.float64), skeleton=skeleton, point_scores=np.ones(len(pts)), score=score
                     )
                 )
-        lfs.append(sio.LabeledFrame(video=video, frame_idx=fr.get("frame_idx", i), instances=insts))
-    labels = sio.Labels(labeled_frames=lfs, videos=[video], skeletons=[skeleton])
+        lfs.append(sio.LabeledFrame(video=video, frame_idx=fr.get("frame_idx", i if len(vids) == 1 else pos[i]), instances=insts))
+    labels = sio.Labels(labeled_frames=lfs, videos=[videos[v] for v in vids], skeletons=[skeleton])
     path = os.path.join(tmpdir, name + (".pkg.slp" if embed else ".slp"))
     sink = io.StringIO()
     with contextlib.redirect_stderr(sink) if quiet else contextlib.nullcontext():
